@@ -20,6 +20,7 @@ type specOpts struct {
 	typ        string
 	hx, rx, px int
 	cs         []int
+	pl         string // explicit plan "hex/0.hex/1" (hostile sender), "" = none
 }
 
 func (o specOpts) String() string {
@@ -42,7 +43,11 @@ func (o specOpts) String() string {
 	if typ == "" {
 		typ = "-"
 	}
-	return fmt.Sprintf("fn=%s;maj=%s;min=%d;typ=%s;hx=%d;rx=%d;px=%d;cs=%s", fn, maj, o.min, typ, o.hx, o.rx, o.px, cs)
+	out := fmt.Sprintf("fn=%s;maj=%s;min=%d;typ=%s;hx=%d;rx=%d;px=%d;cs=%s", fn, maj, o.min, typ, o.hx, o.rx, o.px, cs)
+	if o.pl != "" {
+		out += ";pl=" + o.pl
+	}
+	return out
 }
 
 func randCuts(r *prng.R, n int) []int {
@@ -253,4 +258,35 @@ func init() {
 			genuineCases("spec.chunks.sig", f, "small-chunks", emit)
 		}
 	}, []string{"the reference sender is written from specs/*.md with its own constants; it shares only the primitives and the MessagePack encoder with the code model"}, commonTrusted)
+}
+
+// hostilePlans: chunk plans a key-holding but spec-violating sender can emit —
+// every packet is cryptographically consistent, only the chunk rules are broken.
+func hostilePlans(r *prng.R) []string {
+	x, y := keys.Hex(r.Bytes(3)), keys.Hex(r.Bytes(5))
+	return []string{
+		"-/0." + x + "/1", "-/0", "-/0.-/1", x + "/0", x + "/1." + y + "/1", x + "/1." + y + "/0", "-/1." + x + "/1",
+		x + "/0.-/0." + y + "/1", x + "/0.-/1", "-/1.-/1", x + "/0." + y + "/0", "-/0." + x + "/0." + y + "/1",
+	}
+}
+
+// genHostileSender: consistent messages with illegal chunk plans to every receiver
+// (C15: never a panic; the model agrees on outcome and released bytes).
+func genHostileSender(ctx *Ctx, emit func(Case)) {
+	r := ctx.R.Fork()
+	for k := 0; k < ctx.N(2, 8); k++ {
+		for _, pl := range hostilePlans(r) {
+			for layout := 1; layout <= 2; layout++ {
+				o := specOpts{pl: pl}
+				for _, m := range []specMsg{specEnc(r, layout, o, 0), specAtt(r, layout, o, 0), specSc(r, o, 0)} {
+					line := m.open(m.msg)
+					out := goExec(line)
+					emit(Case{Stream: "hostile.sender", Line: line, GoOut: out, Cmp: resCmp, Fallback: fallbackFor(line),
+						Branch: fmt.Sprintf("%s.v%d/%s", m.mode, layout, resClass(out)),
+						Sample: map[string]interface{}{"mode": m.mode, "layout": layout, "plan": pl, "outcome": resClass(out)},
+						Direct: func() string { return noPanicPredicate(line, out) }})
+				}
+			}
+		}
+	}
 }
